@@ -195,6 +195,24 @@ Theorem deadline_is_error :
 Proof. exact NetStream.deadline_is_error. Qed.
 Print Assumptions deadline_is_error.
 
+(* the deadline stated directly: chunks of k1, k2, ... octets (fewer than asked for), then a
+   would-block that lasts to the deadline: Timeout, and the octets read so far are not returned *)
+Theorem deadline_is_timeout :
+  forall e ks dt rest stream count s now,
+  Forall (fun k => (1 <= k)%nat) ks ->
+  (list_sum ks < count)%nat -> (list_sum ks <= length stream)%nat ->
+  late e now dt ->
+  net_read_loop (Some e) (map RAvail ks ++ RBlock dt :: rest) stream count s now = Lib neTimeout.
+Proof. exact NetStream.deadline_is_timeout. Qed.
+Print Assumptions deadline_is_timeout.
+
+Theorem write_deadline_is_timeout :
+  forall e ks dt rest data sent now,
+  (list_sum ks < length data)%nat -> late e now dt ->
+  net_write_loop (Some e) (map WAccept ks ++ WBlock dt :: rest) data sent now = Lib neTimeout.
+Proof. exact NetStream.write_deadline_is_timeout. Qed.
+Print Assumptions write_deadline_is_timeout.
+
 Theorem read_never_waits_past_deadline :
   forall e evs stream count s now res sk,
   net_read_loop (Some e) evs stream count s now = Ok (res, sk) -> rs_now sk = now \/ rs_now sk < e.
